@@ -332,6 +332,38 @@ def run(chk):
 
     chk.correspond('get_match_coverage', DRV, cov_cases, cov_line, cov_impl, nontrivial_fn=lambda c, im: '1' in im)
 
+    # the same on real Fragment objects (Model/ScoreFrag.lean: FragmentMatch records, key = the tuple of the code)
+    from fractions import Fraction
+    covf_cases = []
+    for _ in range(N // 20):
+        seq = ''.join(rng.choice('ACDEFGHIKLMNPQRSTVWY') for _ in range(rng.randint(1, 8)))
+        ions = rng.sample(['a', 'b', 'c', 'x', 'y', 'z', 'by', 'ax', 'cz', 'i'], rng.randint(1, 3))
+        frs = pt.fragment(seq, ions, rng.sample([1, 2, 3], rng.randint(1, 2)), isotopes=rng.choice([[0], [0, 1]]),
+                          water_loss=rng.random() < 0.3)
+        if not frs:
+            continue
+        picks = [rng.choice(frs) for _ in range(rng.randint(0, 12))]
+        if rng.random() < 0.5:
+            picks = picks + picks[: rng.randint(0, len(picks))]
+        covf_cases.append((seq, picks))
+
+    def covf_line(c):
+        seq, picks = c
+        ents = []
+        for f in picks:
+            lf = Fraction(f.loss)
+            ents.append(f'{f.charge}:{f.ion_type}:{f.start}:{f.end}:{f.isotope}:{lf.numerator}/{lf.denominator}:'
+                        f'{int(f.monoisotopic)}:{int(f.internal)}')
+        return f'covf\t{len(seq)}\t{";".join(ents)}'
+
+    def covf_impl(c):
+        seq, picks = c
+        cov = score.get_match_coverage([score.FragmentMatch(f, f.mz, 1.0) for f in picks])
+        return ';'.join(f'{len(k) - len(k.lstrip("+"))}:{k.lstrip("+")}=' + ','.join(map(str, v)) for k, v in cov.items())
+
+    chk.correspond('get_match_coverage_on_fragments', DRV, covf_cases, covf_line, covf_impl,
+                   nontrivial_fn=lambda c, im: '1' in im or '2' in im)
+
     # ---------------------------------------------------------------- oracles: the property on the real code
     budget = 1 if not chk.broken() else 4
     on = N * budget
